@@ -68,10 +68,10 @@ type node struct {
 }
 
 type succ struct {
-	key  [16]byte
-	abs  string
-	path []Op
-	ok   bool
+	key [16]byte
+	abs string
+	op  Op
+	ok  bool
 }
 
 // Search runs the BFS and reports violations through r. Frontier states of one level are
@@ -175,10 +175,7 @@ func Search(r *common.Run, sys System) Result {
 					report(r, sys, nd.start, nd.path, &op, mm, "")
 					continue // do not explore beyond a state whose oracle already failed
 				}
-				np := make([]Op, len(nd.path)+1)
-				copy(np, nd.path)
-				np[len(nd.path)] = op
-				ss[j] = succ{key: key, abs: abs, path: np, ok: true}
+				ss[j] = succ{key: key, abs: abs, op: op, ok: true} // the path is built only for new states (merge)
 			}
 			out[i] = ss
 		})
@@ -196,9 +193,12 @@ func Search(r *common.Run, sys System) Result {
 					continue
 				}
 				seen[s.key] = struct{}{}
-				next = append(next, node{frontier[i].start, s.path})
-				if len(s.path) >= 3 {
-					sampleOnce.Do(func() { r.SampleL(sys.Name, map[string]any{"start": frontier[i].start, "path": fmt.Sprint(s.path)}) })
+				np := make([]Op, len(frontier[i].path)+1)
+				copy(np, frontier[i].path)
+				np[len(np)-1] = s.op
+				next = append(next, node{frontier[i].start, np})
+				if len(np) >= 3 {
+					sampleOnce.Do(func() { r.SampleL(sys.Name, map[string]any{"start": frontier[i].start, "path": fmt.Sprint(np)}) })
 				}
 			}
 		}
